@@ -130,7 +130,7 @@ def coq_make(targets=None, timeout=1500):
     Returns (ok, log_text)."""
     with _Lock():
         _prepare_makefile()
-        cmd = ['timeout', str(timeout), 'make', '-j%d' % NCPU, '-k']
+        cmd = ['timeout', str(timeout), 'make', '-j%d' % NCPU, '-k', 'COQC=' + os.path.join(VERIF, 'tools', 'coqc_limited')]
         if targets:
             cmd += targets
         p = subprocess.run(cmd, cwd=COQ, stdout=subprocess.PIPE, stderr=subprocess.STDOUT)
